@@ -24,6 +24,7 @@ Definition isBad (x : float) : bool :=
 Definition WARN_BADQPOS : nat := 3.
 Definition WARN_BADQVEL : nat := 4.
 Definition WARN_BADQACC : nat := 5.
+Definition WARN_BADCTRL : nat := 6.
 Definition NWARNING : nat := 7.
 
 Record WarnStat := { lastinfo : Z; number : Z }.
@@ -98,6 +99,25 @@ Definition checkVel (autoreset : bool) (s0 : S) (qvel : S -> list float) (d : Da
   check WARN_BADQVEL autoreset s0 (entries_all (qvel (core d))) d.
 
 End Checks.
+
+(* the bad-control scan of mj_fwdActuation: [ctrl] is the LOCAL control vector (all nu entries, after the
+   delay read and the ctrlrange clamp); if any entry is bad, mj_warning(BADCTRL, first bad index) and ALL
+   nu controls are replaced by 0 for this evaluation; d->ctrl itself is not modified *)
+Definition check_ctrl {S : Type} (ctrl : list float) (d : Data S) : list float * Data S :=
+  match first_bad (entries_all ctrl) with
+  | None => (ctrl, d)
+  | Some i => (repeat PrimFloat.zero (length ctrl), mj_warning d WARN_BADCTRL i)
+  end.
+
+(* mju_clip as used by clampVec (NaN passes through, infinities are clamped) *)
+Definition clip_ctrl (limited : bool) (lo hi x : float) : float :=
+  if limited then (if PrimFloat.ltb x lo then lo else if PrimFloat.ltb hi x then hi else x) else x.
+
+Definition check_ctrl_summary (ctrl : list float) (n0 l0 : Z) : bool * Z * Z :=
+  let d0 : Data unit := {| core := tt; warn := repeat {| lastinfo := 0; number := 0 |} 6 ++ [ {| lastinfo := l0; number := n0 |} ] |} in
+  let '(c, d1) := check_ctrl ctrl d0 in
+  let w := nth 6 (warn d1) {| lastinfo := -1; number := -1 |} in
+  (match first_bad (entries_all ctrl) with Some _ => true | None => false end, number w, lastinfo w).
 
 (* executable summary used by the correspondence run: given the warning stat of the checked kind
    before the call, return (found, number', lastinfo', was_reset) *)
